@@ -48,7 +48,12 @@ func runC07(c *Ctx, r *Report, tier string) {
 			continue
 		}
 		call := calls[0].(*ssa.Call)
-		opt := c.term(call.Call.Args[3])
+		optOp := c.argNamed(call, "option")
+		if optOp == nil {
+			r.Fail("EXACT", fname, "option operand of parseOption", c.ipos(call), "parseOption has no `option` operand")
+			continue
+		}
+		opt := c.term(optOp)
 		var want string
 		if fn == pl {
 			want = "lookup(lookup.longNames(&parseState.lookup(P1)), P2)"
@@ -64,8 +69,10 @@ func runC07(c *Ctx, r *Report, tier string) {
 		}
 		r.Check(ok && len(bad) == 0, "EXACT", fname, "option operand of parseOption", c.ipos(call), "exact map lookup: "+trunc(opt, 120), "option comes from "+trunc(opt, 200)+" (inexact functions: "+strings.Join(bad, ",")+")")
 		// name operand is the looked-up key
-		name := c.term(call.Call.Args[2])
-		if fn == pl {
+		if nameOp := c.argNamed(call, "name"); nameOp == nil {
+			// (parseOption never used it; a parameter list without it has nothing to check here)
+			r.OK("EXACT", fname, "name operand", c.ipos(call), "parseOption takes no name operand")
+		} else if name := c.term(nameOp); fn == pl {
 			r.Check(name == "P2", "EXACT", fname, "name operand", c.ipos(call), "the looked-up name", "name is "+name)
 		} else {
 			r.Check(strings.HasPrefix(name, "conv[string](runeat("), "EXACT", fname, "name operand", c.ipos(call), "string of the current rune", "name is "+trunc(name, 80))
